@@ -391,11 +391,9 @@ impl<'a> CrlfLines<'a> {
                 return Some(left);
             }
         }
-        if self.slice.is_empty() {
-            None
-        } else {
-            Some(mem::take(&mut self.slice))
-        }
+        // The remaining bytes are not terminated by CRLF (yet): they are not a line.
+        // More data may follow in the next frame, so a verdict must not depend on them.
+        None
     }
 
     /// split by pattern and return previous bytes
